@@ -8,6 +8,7 @@ import FerretVerif.Props.C08
 import FerretVerif.Props.C10
 import FerretVerif.Props.C11
 import FerretVerif.Props.C13
+import FerretVerif.Props.C14
 import FerretVerif.Props.C15
 import FerretVerif.Props.C16
 import FerretVerif.Props.C17
